@@ -76,7 +76,7 @@ func shortPkg(p string) string {
 var directives = map[string]bool{"func": true, "property": true, "arith": true, "requires": true, "ensures": true,
 	"modifies": true, "may_panic": true, "nopanic": true, "loop": true, "pure": true, "trusted": true,
 	"isa": true, "lanes": true, "crosslane": true, "commutes": true, "assert-at": true, "iface": true,
-	"view": true, "lock": true, "note": true, "fp": true, "spec": true, "lemma": true, "assume-iface": true, "inline": true, "implements": true, "case": true, "extern": true, "assume-at": true, "opaque": true, "extern-here": true, "funcvalues": true, "returns": true, "trustframe": true}
+	"view": true, "lock": true, "note": true, "fp": true, "spec": true, "lemma": true, "assume-iface": true, "inline": true, "implements": true, "case": true, "extern": true, "assume-at": true, "opaque": true, "extern-here": true, "funcvalues": true, "returns": true, "trustframe": true, "track": true}
 
 // parseContractFile reads one zz_contracts_verif.go (or .gspec) file.
 func parseContractFile(path, pkgPath string) ([]*Contract, []*SpecFn, error) {
